@@ -353,10 +353,6 @@ def LV.toExpr : LV N → Option Expr
   | .number x => some (numToExpr x)
   | _ => none
 
-/-- Are the evaluator queries a rule could make on `e` itself answered? -/
-def coveredExpr (e : Expr) : Bool :=
-  (evaluate (N := N) e).isSome && (hasSideEffects (N := N) false e).isSome
-
 /-- the `EvalApi` instance; uncovered queries default to the conservative answers (the driver
 never uses them: it checks coverage first) -/
 def api (N : NumOps) : EvalApi where
@@ -364,6 +360,10 @@ def api (N : NumOps) : EvalApi where
   toExpr e := match evaluate (N := N) e with | some v => v.toExpr | none => none
   hasSideEffects e := (hasSideEffects (N := N) false e).getD true
   canReturnMultiple := canReturnMultiple
+
+/-- Are the evaluator queries a rule could make on `e` itself answered? -/
+def coveredExpr (e : Expr) : Bool :=
+  (evaluate (N := N) e).isSome && (hasSideEffects (N := N) false e).isSome
 
 /-! ### the region where the real evaluator is sound (hypothesis `H₈` of C08, as far as C01 meets it)
 
@@ -395,7 +395,8 @@ def regionProcessor (N : NumOps) : Processor (Option String) :=
     (e, match s with
       | some w => some w
       | none =>
-        if !numEqOk (N := N) e then some "F1/F2 numeric equality by epsilon"
+        if !coveredExpr (N := N) e then some "F3/portable numerals: string<->number coercion in the evaluator (not covered by EvalLite)"
+        else if !numEqOk (N := N) e then some "F1/F2 numeric equality by epsilon"
         else if !interpOk (N := N) e then some "F4 interpolated opaque segment"
         else none)
   { expr := h, pref := h, target := h, node := h }
